@@ -267,9 +267,10 @@ def exec (env : Env) (fs : FS) : Call → FS × Ret
   | .reflink src dst =>
     match fs.readFile src with
     | .ok b =>
-      if !env.reflinkOK then (fs, .err .other)
-      else if (fs.get dst).isSome then (fs, .err .exists)
+      -- reflink-copy creates the destination with O_EXCL first, then asks for the clone
+      if (fs.get dst).isSome then (fs, .err .exists)
       else if !fs.isDir (parent dst) then (fs, .err .notFound)
+      else if !env.reflinkOK then (fs, .err .other)
       else (fs.put dst (.file b), .unit)
     | .error e => (fs, .err e)
   | .walk p =>
